@@ -186,6 +186,15 @@ def step (kb : KB) : Op → KB × Out
 
 def run (ops : List Op) : KB := ops.foldl (fun kb op => (step kb op).1) KB.init
 
+/-- `add_rules_from_grl`: `add_rule` on each rule of the text in source order, `?` on the first error.
+Returns the calls that were applied and whether a duplicate name stopped the load. -/
+def bulkApplied : KB → List Op → List Op × Bool
+  | _, [] => ([], false)
+  | kb, op :: rest =>
+    match (step kb op).2 with
+    | .errDup => ([], true)
+    | _ => let r := bulkApplied (step kb op).1 rest; (op :: r.1, r.2)
+
 /-- outputs along a history -/
 def outs : KB → List Op → List Out
   | _, [] => []
